@@ -132,10 +132,16 @@ func c08Parse(p *chk.Prog, r *chk.Report) {
 		entry := rangeVal(af, rs)
 		nets := definedBy(g, "ParseCIDR(E)", chk.H("E", entry))
 		okParse := g.GErrNil(true, "ParseCIDR(E)", chk.H("E", entry))
-		store := g.Find(af.IsAssignPat("R.cidrsPerAddresses[E]", "N", chk.H("E", entry), chk.H("N", nets)))
+		poolT := p.LookupType(cfgPkg, "Pool")
+		groups, list := litFieldPlace(af, poolT, "cidrsPerAddresses"), litFieldPlace(af, poolT, "CIDR")
+		store := g.Find(af.IsAssignPat("M[E]", "N", chk.H("M", groups), chk.H("E", entry), chk.H("N", nets)))
 		app := g.Find(func(n ast.Node) bool {
 			as, ok := n.(*ast.AssignStmt)
-			return ok && len(as.Rhs) == 1 && af.MatchWith("append(R.CIDR, N...)", as.Rhs[0], chk.H("N", nets)) != nil && af.MatchNew("R.CIDR", as.Lhs[0]) != nil
+			if !ok || len(as.Rhs) != 1 || len(as.Lhs) != 1 {
+				return false
+			}
+			b := af.MatchWith("append(L, N...)", as.Rhs[0], chk.H("L", list), chk.H("N", nets))
+			return b != nil && list(as.Lhs[0]) && af.SameExpr(as.Lhs[0], b["L"])
 		})
 		y.Check("addressPoolFromCR:group-is-parse-result", rs.Pos(), len(store) == 1 && g.Dominated(store[0], okParse), "", "an address group is stored that is not the successful ParseCIDR of the entry written by the user")
 		y.Check("addressPoolFromCR:cidr-list-gets-all-networks", rs.Pos(), len(app) == 1 && g.Dominated(app[0], okParse), "", "the pool's CIDR list does not receive every network of the parsed entry (addresses lost or added)")
